@@ -187,7 +187,7 @@ def _check_generator_ctx(model, R, f, flag, enter_value):
 # ------------------------------------------------------------------------------------------------ clients
 def check_clients(model, R):
     R.rule('C07.CLIENTS', 'every use of no_grad / retain_grads inside the package builds the manager in the `with` header', floor=5)
-    for fn in model.funcs.values():
+    for fn in model.live_funcs():
         if fn.parent is not None:
             continue
         for n in ast.walk(fn.node):
